@@ -85,10 +85,10 @@ theorem sample_statement_partial (O : Oracle) (k se : Nat) (hse : 2 ≤ se) (par
     (parts.flatten.length < k → sample O k se parts = .valueError) :=
   ⟨sample_submultiset O k se hse parts, sample_raises_when_k_gt O k se hse parts⟩
 
-/-- `split_every = 1` with more than one partition: `Bag.reduction` never finishes building the graph
-    (the `while k > split_every` loop does not make progress) -/
-theorem sample_split_every_one_hangs (O : Oracle) :
-    sample O 1 1 [[1], [2]] = .hang := by rfl
+/-- `split_every = 1` with more than one partition: `Bag.reduction` raises ValueError (repair ec8607a;
+    before, the `while k > split_every` loop never made progress and graph construction did not return) -/
+theorem sample_split_every_one_raises (O : Oracle) :
+    sample O 1 1 [[1], [2]] = .splitEveryError := by rfl
 
 /-! ## `choices` -/
 
